@@ -401,6 +401,38 @@ def work_requests_eval(arg):
                 text = 'import vfcg\nvfcg.f%d([]).a0\n' % k
                 reqs.append(('location', text, main, (2, len('vfcg.f%d([]).a0' % k))))
             reqs.append(('lint', 'import vfcg\nvfcg.f0([])\n', main, None))
+            # a nested package whose modules use relative imports of several levels from one directory
+            # (the package path of a relative name is memoised per Project)
+            nreq = len(reqs)
+            pk = {'vfp/__init__.py': 'top_%d = 1\n' % i,
+                  'vfp/util.py': 'util_%d = 1\nclass U:\n    ua_%d = 1\n' % (i, i),
+                  'vfp/sub/__init__.py': 'sub_%d = 1\n' % i,
+                  'vfp/sub/sibling.py': 'sib_%d = 1\n' % i,
+                  'vfp/sub/util.py': 'subutil_%d = 1\n' % i,
+                  'vfp/sub/deep/__init__.py': 'deep_%d = 1\n' % i,
+                  'vfp/sub/deep/sibling.py': 'deepsib_%d = 1\n' % i,
+                  'vfp/sub/mod.py': '', 'vfp/sub/deep/mod.py': ''}
+            for rel, text in pk.items():
+                pth = os.path.join(root, rel)
+                os.makedirs(os.path.dirname(pth), exist_ok=True)
+                with open(pth, 'w') as f:
+                    f.write(text)
+            for rel, maxlevel in (('vfp/sub/mod.py', 2), ('vfp/sub/deep/mod.py', 3)):
+                f = os.path.join(root, rel)
+                for level in range(1, maxlevel + 1):
+                    dots = '.' * level
+                    for name in ('sibling', 'util', 'sub', 'deep'):
+                        text = 'from %s import %s\n%s.' % (dots, name, name)
+                        reqs.append(('assist', text, f, (2, len(name) + 1)))
+                    reqs.append(('assist', 'from %s import ' % dots, f, (1, len('from %s import ' % dots))))
+                    reqs.append(('lint', 'from %sutil import *\nprint(util_%d, subutil_%d, U)\n' % (dots, i, i), f, None))
+                    reqs.append(('location', 'from %ssibling import sib_%d, deepsib_%d\nsib_%d\ndeepsib_%d\n' % (dots, i, i, i, i),
+                                 f, (rng.choice([2, 3]), 3)))
+            pkreqs = list(range(nreq, len(reqs)))
+            rng.shuffle(pkreqs)
+            del_idx = set(pkreqs[10:])                  # keep the history length bounded
+            reqs = [r for j, r in enumerate(reqs) if j not in del_idx]
+            part.count('relative_import_requests_in_nested_packages', len(pkreqs) - len(del_idx))
 
             def do(project, r):
                 kind, t, f, pos = r
